@@ -28,6 +28,7 @@ RULE = (
     "definitions that hold TWO stocks of one class and dims with different lifetimes, each compared with a standalone stock. State key = digest of EVERY array reachable from the stock object (public and private "
     "attributes alike, so caches are part of the state) + input versions. Non-trivial transition = a compute "
     "(compared with a fresh object) or a transition into a new state."
+    " Also: replacing the lifetime model object, parameters first given as integers, inadmissible parameters tried and refused, and after every set_prms the held parameters compared with a fresh model's."
 )
 ASSUMPTIONS = [
     "finite input alphabets (3 driver versions, 5 parameter versions); depth bound 4-5 quick / 6-7 thorough",
